@@ -551,9 +551,53 @@ def run(tier, seed):
                 runs.append(dict(shape=shp, cw=2 + (k + rep) % 2, execs=8, ops=35, perturb=2 + (k + rep) % 2, nt=3 + rep % 2,
                                  pp=0 if rep == 3 else 1))
     drive(v, seed, runs)
+    if tier != "quick":
+        asan_workloop(v, seed)
     v.notes["phase_wall_s"] = {"tlc_models_and_mutants": round(t1 - t0, 1), "dqstate_conformance": round(t2 - t1, 1),
                                "real_executions_and_word_level_validation": round(time.time() - t2, 1)}
     return v.finish()
+
+
+def asan_workloop(v, seed):
+    """Thorough only: the workloop shapes on the ASan build with detect_stack_use_after_return.  Synchronous waiters live
+    on their thread's stack and are handed from thread to thread (lane drainer -> workloop -> owner -> waiter): an access
+    to a waiter after the point where it may already have returned is invisible to the word-level validation (plain
+    accesses are not hooked) and only shows as rare memory corruption (finding F6); ASan reports it when it happens, and
+    drv_chain holds the pusher after _dispatch_workloop_push_waiter's state change so that it does happen."""
+    drv = build_driver("drv_chain", "asan")
+    d = rundir(PROP)
+    env = {"ASAN_OPTIONS": "detect_leaks=0:exitcode=66:abort_on_error=0:halt_on_error=1:detect_stack_use_after_return=1",
+           "UBSAN_OPTIONS": "print_stacktrace=0"}
+    for sym in ("/usr/bin/llvm-symbolizer-15", "/usr/bin/llvm-symbolizer", "/usr/bin/llvm-symbolizer-14"):
+        if os.path.exists(sym):
+            env["ASAN_SYMBOLIZER_PATH"] = sym
+            break
+    plan = [(shp, k) for k in range(4) for shp in (12, 10, 8, 11)]
+
+    def one(i, shp, k):
+        s = seed * 1000 + 800 + i
+        tr = os.path.join(d, "asan_%d.ndjson" % i)
+        return i, s, shp, sh([drv, tr, str(s), "3", "5", "25", str(shp), str(2 + k % 2), "1", "3"], timeout=1500, env=env)
+    res = par([(lambda i=i, shp=shp, k=k: one(i, shp, k)) for i, (shp, k) in enumerate(plan)], 4)
+    clean = 0
+    for i, s, shp, (rc, out, err) in res:
+        if rc == 124:
+            raise Broken("ASan run of drv_chain timed out (seed %d shape %d)" % (s, shp))
+        m = re.search(r"ERROR: (AddressSanitizer|UndefinedBehaviorSanitizer)[^\n]*", err)
+        if m:
+            pth = save_replay(PROP, "asan_%d.txt" % s, err[-20000:])
+            v.violation("sanitizer report on the ASan build, shape %d seed %d (a synchronous waiter or queue object was accessed after "
+                        "it may have gone): %s" % (shp, s, m.group(0)[:300]), pth)
+            continue
+        if rc in (2, 70, 71):
+            pth = save_replay(PROP, "asan_%d.txt" % s, err[-20000:])
+            v.violation("ASan build: %s (shape %d seed %d): %s" % ({2: "API oracle failed", 70: "crash", 71: "hang"}[rc], shp, s, err.strip()[-300:]), pth)
+            continue
+        if rc != 0:
+            raise Broken("ASan run of drv_chain failed rc=%d (seed %d): %s" % (rc, s, err[-800:]))
+        clean += 1
+    v.traces += clean
+    v.notes["asan_workloop_runs_clean"] = clean
 
 
 def judge_recorded_order(lines):
